@@ -155,6 +155,13 @@ def make_case(rnd, k, root, modules):
             if not os.path.exists(p):
                 with open(p, 'w') as f:
                     f.write('decoy %s\n' % n)
+        # a file named exactly like the external data-segment blob (another module's, or a user's): only a run in an external
+        # data-segment mode may (over)write it, and only in the output directory; nobody may delete it
+        if k % 2 == 0:
+            pds = os.path.join(dd, 'datasegments')
+            if not os.path.lexists(pds):
+                with open(pds, 'w') as f:
+                    f.write('blob of another module\n')
         # a non-empty directory with a near-miss name and a symlink with a near-miss name
         nd = os.path.join(dd, 's00000000000.c.d')
         os.makedirs(nd, exist_ok=True)
